@@ -4,6 +4,7 @@ import (
 	"encoding/base64"
 	"fmt"
 	"go/types"
+	"net/url"
 	"path"
 	"path/filepath"
 	"reflect"
@@ -75,6 +76,7 @@ var reflectNatives = map[string]interface{}{
 	"path.Join":          path.Join, "path.Base": path.Base, "path.Dir": path.Dir, "path.Ext": path.Ext,
 	"path/filepath.Join": filepath.Join, "path/filepath.Base": filepath.Base, "path/filepath.Dir": filepath.Dir,
 	"path/filepath.Ext": filepath.Ext, "path/filepath.Clean": filepath.Clean,
+	"net/url.Parse": url.Parse, "net/url.QueryEscape": url.QueryEscape, "net/url.PathEscape": url.PathEscape,
 }
 
 type nativeFn func(p *Path, g *G, fr *Frame, fv *FuncV, args []Value) (Value, int)
@@ -968,6 +970,42 @@ func (p *Path) fromReflect(o reflect.Value, t types.Type) Value {
 		if e, ok := o.Interface().(error); ok {
 			return p.newError(conc(e.Error()))
 		}
+	case reflect.Ptr:
+		// pointer to a plain struct (e.g. *url.URL): a fresh heap object with the same
+		// field values; nested pointers must be nil
+		pt, ok := t.Underlying().(*types.Pointer)
+		if !ok {
+			break
+		}
+		if o.IsNil() {
+			return (*Ptr)(nil)
+		}
+		v := p.fromReflect(o.Elem(), pt.Elem())
+		return &Ptr{obj: p.newObj(pt.Elem(), v, "native")}
+	case reflect.Struct:
+		st, ok := t.Underlying().(*types.Struct)
+		if !ok || st.NumFields() != o.NumField() {
+			break
+		}
+		fs := make([]Value, o.NumField())
+		for i := range fs {
+			fv := o.Field(i)
+			if fv.Kind() == reflect.Ptr && fv.IsNil() {
+				fs[i] = p.zero(st.Field(i).Type())
+				continue
+			}
+			if !fv.CanInterface() {
+				// unexported field: readable through reflection for basic kinds only
+				switch fv.Kind() {
+				case reflect.String, reflect.Bool, reflect.Int, reflect.Int64, reflect.Int32, reflect.Uint, reflect.Uint64, reflect.Uint32:
+				default:
+					fs[i] = p.zero(st.Field(i).Type())
+					continue
+				}
+			}
+			fs[i] = p.fromReflect(fv, st.Field(i).Type())
+		}
+		return StructV{f: fs}
 	}
 	p.unsupported("native result of kind " + o.Kind().String())
 	return nil
